@@ -9,19 +9,19 @@ TECH = "deterministic simulation with fault injection: seeded search over design
 CLAIMED = {
  "C01": ("exploration", "seeded search over designs x peer model choice (native/walk/lexmin/lexmax/cmsgen) x transport (in-process fake, fake CLI) x I/O and peer faults; every returned sequence is checked against an independent reference semantics", "reference-model oracle (refsem V_max)", "6 C01"),
  "C02": ("exploration", "IterateSATGen exhausted under two different peer policies per design; returned multiset compared with an independent enumeration; protocol liveness (solver calls = returned + 1); order independence", "reference-model oracle + schedule-independence + protocol call count", "6 C02"),
- "C04": ("exploration", "RandomGen (and IterateGen/UniformGen when they delegate) under scripted RNG scripts incl. corner scripts; every returned sequence checked against the reference semantics", "reference-model oracle under scripted PRNG", "6 C04"),
- "C05": ("exploration", "RandomGen driven to exhaustion; enumerator instrumented from outside; bijection candidates<->valid sequences and exact equal-probability ledger over the ranges the library passed to randrange", "exact probability ledger + bijection against reference enumeration", "6 C05"),
- "C06": ("exploration", "RandomGen asked for more than exists: returned multiset = independent enumeration, bounded liveness on integer draws, metrics solution_count where the statement applies", "reference-model oracle + bounded liveness", "6 C06"),
+ "C04": ("exploration", "RandomGen (and IterateGen/UniformGen when they delegate) under scripted RNG scripts incl. corner scripts and needle cases (10^5-3*10^5 candidates rejected in a row before a valid one exists); every returned sequence checked against the reference semantics", "reference-model oracle under scripted PRNG", "6 C04"),
+ "C05": ("exploration", "RandomGen driven to exhaustion (in 30% of the runs after a RandomGen/IterateSATGen call on a sibling design with other weights in the same process); enumerator instrumented from outside; bijection candidates<->valid sequences and exact equal-probability ledger over the ranges the library passed to randrange", "exact probability ledger + bijection against reference enumeration", "6 C05"),
+ "C06": ("exploration", "RandomGen asked for more than exists (in 30% of the runs after a call on a sibling design with other weights in the same process): returned multiset = independent enumeration, bounded liveness on integer draws, metrics solution_count where the statement applies", "reference-model oracle + bounded liveness", "6 C06"),
  "C07": ("exploration", "IterateSATGen and RandomGen both exhausted in one world on the same design; set equality by level names; no reference semantics involved", "two-realisations-agree (metamorphic) oracle", "6 C07"),
- "C08": ("exploration", "fault-free runs only: every legal peer behaviour and transport; any exception escaping synthesize_trials for IterateSATGen/RandomGen/CMSGen/UniGen on a constructor-accepted design is a violation", "totality oracle over legal peer behaviours", "6 C08"),
+ "C08": ("exploration", "fault-free runs only: every legal peer behaviour and transport, and in 12% of the runs a second caller that runs a whole synthesize_trials of its own at the instant the first call waits for its solver; any exception escaping synthesize_trials for IterateSATGen/RandomGen/CMSGen/UniGen on a constructor-accepted design is a violation", "totality oracle over legal peer behaviours", "6 C08"),
  "C09": ("exploration", "IterateSATGen/RandomGen/IterateGen with n in {0,1,|V|-1,|V|,|V|+1,3|V|}; length = min(n,|V|), no printed sequence more often than its reference multiplicity; under peer/IO faults fewer may return, never duplicates", "reference-model oracle with fault-relaxed count", "6 C09"),
- "C19": ("exploration", "seeded histories of 3-12 public calls on one block (all strategies, print/tabulate/csv/tuples/dicts/mismatch) with stdout EPIPE and ENOSPC injected inside calls; block state invariants after every call; every later synthesize_trials must succeed (fresh-block twin as reference) with the same columns and valid sequences", "history machine with state invariants + fresh-twin reference", "6 C19"),
+ "C19": ("exploration", "seeded histories of 3-12 public calls on one block (CrossBlock or a combinator block; all strategies, print/tabulate/csv/tuples/dicts/mismatch) with stdout EPIPE, ENOSPC and a user interrupt at a seeded line injected inside calls; block state invariants after every call; every later synthesize_trials must succeed (fresh-block twin as reference) with the same columns and valid sequences", "history machine with state invariants + fresh-twin reference", "6 C19"),
  "C20": ("exploration", "same histories; conversions and CSV files (read back from the simulated file system) must reproduce every declared factor's returned values, never expose internal factors; CSV sub-check skipped for calls hit by an injected I/O fault", "history machine + output-equivalence oracle over SimFS", "6 C20"),
- "C03": ("exploration", "ideal-uniform ('cycle') sampler peers: one full cycle over all models of the clauses the library handed to pycmsgen / all projections handed to pyunigen; multiset of returned sequences must equal exhausted IterateSATGen's (one blocking clause per trial-sequence assignment), so no sequence has several models or none", "cycle sampler peer + conservation oracle (bounded model enumeration inside the fake)", "6 C03"),
- "C27": ("exploration", "every formula-based strategy over both transports; per peer invocation the file text in SimFS, what the library's parser delivered, the peer's model and what the library claims it answered are recorded together with the intended CNF object; strict DIMACS oracle, parser = text, claimed solution = model, successive files differ by exactly the blocking clause; EIO/ENOSPC injected", "protocol conformance over the recorded file/peer history", "6 C27"),
+ "C03": ("exploration", "the block first gets a seeded call history in 30% of the runs (IterateILPGen failing without gurobipy or working against the fake Gurobi peer, RandomGen, IterateGen, UniformGen, print); then ideal-uniform ('cycle') sampler peers: one full cycle over all models of the clauses the library handed to pycmsgen / all projections handed to pyunigen; multiset of returned sequences must equal exhausted IterateSATGen's (one blocking clause per trial-sequence assignment), so no sequence has several models or none", "cycle sampler peer + conservation oracle (bounded model enumeration inside the fake)", "6 C03"),
+ "C27": ("exploration", "every formula-based strategy over both transports, incl. big-support cases (sampling sets of 110-1515 variables); per peer invocation the file text in SimFS, what the library's parser delivered, the peer's model and what the library claims it answered are recorded together with the intended CNF object; strict DIMACS oracle, parser = text, claimed solution = model, successive files differ by exactly the blocking clause; EIO/ENOSPC injected", "protocol conformance over the recorded file/peer history", "6 C27"),
  "C28": ("exploration", "fake Gurobi peer reads each round's OPB text from SimFS and answers by the peer policy; ILP solution set = SAT solution set on generated clause sets with EQ/LT/GT requests (brute-force documented meaning as referee) and on generated designs; each appended OPB constraint excludes exactly the previous solution", "fake ILP peer + two-realisations-agree oracle", "6 C28"),
  "C29": ("exploration", "histories of 1-4 SMGen calls over its process-global state; scattered_map_core.random scripted; virtual clock advanced per traced line; the fake threading.Timer fires clock-driven or pinned to an instant after arming and its handler is delivered in a helper thread (production) or in the main thread; user abort injected at a traced line; every returned sequence checked against the reference semantics", "virtual clock + timer/pre-emption scheduler (sys.settrace line events) + reference-model oracle", "6 C29"),
- "C18": ("exploration", "histories of constructor calls over one pool of shared factor/constraint Python objects (CrossBlock of different geometry, Repeat, Merge, Nest, in seeded order) interleaved with exhaust and mismatch queries; reference = the same expression built alone from fresh objects", "history over shared mutable objects + fresh-twin reference", "6 C18"),
+ "C18": ("exploration", "histories of constructor calls over one pool of shared factor, constraint and operand-BLOCK Python objects (CrossBlock, MultiCrossBlock, Repeat, Merge, Nest; stories about one operand object used two or three times; role-change stories over weighted factors; a constructor interrupted at a seeded line) interleaved with sampling of already built blocks; reference = the same expression built alone from fresh objects; trial counts, exhausted sets (or, beyond the cap, cross-checks with the twin's mismatch checker) and mismatch verdicts must agree", "history over shared mutable objects + fresh-twin reference", "6 C18"),
  "C22": ("exploration", "designs with continuous factors; every continuous draw goes through the scripted PRNG and the script decides which whole-sequence attempt satisfies the ContinuousConstraint; returned values re-derived from the returned rows (same-trial inputs, ContinuousFactorWindow with NaN rules, cumulative sums per sequence); exact attempt count as bounded liveness", "scripted PRNG ('bad luck' fault placement) + recomputation oracle", "6 C22"),
  "C15": ("exploration", "derived-level tables generated as data (total, deliberately overlapping or non-covering on a reachable window, ElseLevel, early start, stride); overlapping => constructor raises, non-covering => every strategy returns [], otherwise every returned sequence carries exactly the level its window selects and '' where the factor does not apply; IterateSATGen under every peer policy, RandomGen under scripted draws, CMSGen", "reference-model oracle (R-DER) over peer/RNG schedules; the design generator carries most of the weight", "6 C15"),
  "C16": ("exploration", "block.trials_per_sample() against the documented arithmetic (reference R-T) and the length of every factor's column in every sequence from IterateSATGen, RandomGen, CMSGen, UniGen and SMGen (virtual-clock world)", "reference-model oracle (R-T) over all strategies; the design generator carries most of the weight", "6 C16"),
